@@ -164,7 +164,9 @@ def member(cell, op, x):
     """Does the cell satisfy the criterion - compared within its own type."""
     kc, kx = tid(cell), tid(x)
     if kc == 'e':
-        return NO
+        # an error value satisfies no criterion of another type; for <> the
+        # statement (own type) and Excel (everything else) differ
+        return EITHER if op == '<>' else NO
     if kc != kx:
         if op == '<>':
             return EITHER               # statement: own type; Excel: counts
